@@ -51,6 +51,26 @@ pub fn run(o: &Opts) {
       }
       faulty.push(files[i].0.clone());
     }
+    // whatever the random faults were: two more files that are not UTF-8, so that in every faulty tree some
+    // walker thread reads valid files AFTER an unreadable one (the directory order is the file system's)
+    if nfault > 0 {
+      for k in 0..2 {
+        let i = rng.below(files.len());
+        if faulty.contains(&files[i].0) {
+          continue;
+        }
+        if k == 0 {
+          let mut b = files[i].1.clone();
+          b.insert(b.len() / 2, 0xff);
+          files[i].1 = b;
+        } else {
+          let mut b = b"\xc3\x28 invalid start\n".to_vec();
+          b.extend_from_slice(&files[i].1);
+          files[i].1 = b;
+        }
+        faulty.push(files[i].0.clone());
+      }
+    }
     // a large but valid file: more than 3 MB in few lines is NOT skipped (only size AND line count together are)
     if t % 2 == 1 {
       let i = rng.below(files.len());
@@ -134,7 +154,7 @@ pub fn run(o: &Opts) {
       }
     }
   }
-  out.finish("directory trees of 12-20 files in nested directories, 0-3 of them made invalid (empty, invalid UTF-8 in the middle / at the start, more than 3 MB and 200k lines), given as a single root: `sg run -p .. -j N` \
+  out.finish("directory trees of 12-20 files in nested directories, 0-5 of them made invalid (at least two not UTF-8 in every faulty tree) (empty, invalid UTF-8 in the middle / at the start, more than 3 MB and 200k lines), given as a single root: `sg run -p .. -j N` \
               for N in {1,2,4,16} (1..16 thorough) x repeated runs x the three JSON styles: the output must be well-formed and the sorted records must equal the union of the records of each file scanned alone (each file exactly once). \
               As root in this sandbox a file cannot be made unreadable by mode bits: the unreadable case is covered by invalid content only. non-trivial = the pattern has matches");
 }
